@@ -16,13 +16,19 @@ def run(res):
     n = 120 if res.tier == 'quick' else 4000
     checked = 0
     for _ in range(n):
-        case = sessioncheck.build_case(rnd, n_events=rnd.choice([30, 60]), chatter=0.02, n_conns=rnd.choice([1, 2, 3]))
+        # some sessions select connections while the messages are still arriving (live use: gdb mode, run mode with breakpoints);
+        # what a label selects afterwards must not depend on which connection was selected when a message arrived
+        live = rnd.random() < 0.4
+        import cmdgen
+        case = sessioncheck.build_case(rnd, n_events=rnd.choice([30, 60]), chatter=0.02, n_conns=rnd.choice([1, 2, 3]),
+                                       cmds=(lambda r_: cmdgen.conn_cmd(r_)) if live else None, cmd_rate=0.08 if live else 0.0)
         cfg = case['config']
         if rnd.random() < 0.3:
             cfg[0] = rnd.choice(['wl_display', '.get_registry', 'wl_registry ! .bind'])     # a filter in force must not leak into `list LABEL`
         r = implsession.LogRunner(cfg, [(e[0], e[1]) if len(e) > 1 else (e[0],) for e in case['impl_events']], lambda e: e[1])
         outs, final = r.run()
         conns = list(r.cm.connection_list)
+        r.ctrl.process_command('connection all')
         # distinct objects of a connection never share a displayed label (every object of the table, not only the sampled ones)
         for conn in conns:
             seen = {}
@@ -72,7 +78,8 @@ def run(res):
                     return True
                 return any(same(getattr(a, 'obj', None)) for a in msg.args)
             # the label carries the connection name: a message whose own target is unresolved has no connection (O7) and is not selected
-            want = [m for m in r.ctrl.all_messages if getattr(m.obj, 'connection', None) is conn and involves(m)]
+            # (the oracle reads what the connection delivered, observed by the harness, not the controller's own merged list)
+            want = [m for (dc, m) in r.delivered if dc is conn and getattr(m.obj, 'connection', None) is conn and involves(m)]
             text = '%s: %d%s' % (cname, oid, letters)
             if rnd.random() < 0.3:
                 # the same label text used in other commands first: what `list LABEL` returns afterwards depends on the label alone
@@ -106,7 +113,7 @@ def run(res):
             lines = [t for s, t in r.log[st:] if re.match(r'\s*-?\d+\.\d{4} ', t)]
             # a message whose TARGET could not be resolved (an id this log never saw created) carries no connection in the tool:
             # it is shown with an empty connection column and `X:` does not select it (O7, ill-formed histories only)
-            want = [m for m in r.ctrl.all_messages if getattr(m.obj, 'connection', None) is c]
+            want = [m for (dc, m) in r.delivered if dc is c and getattr(m.obj, 'connection', None) is c]
             res.evaluations += 1
             if len(lines) != len(want):
                 res.disagree('`list X:` does not select exactly the messages of connection X', dict(conn=c.name(), impl_events=case['impl_events']),
